@@ -35,6 +35,8 @@ type World struct {
 	funcsByPkg map[string][]*ssa.Function
 	pdomCache  map[*ssa.Function]*PostDom
 	allFuncs   []*ssa.Function
+	cidx       *callerIndex
+	invoked    map[string][]*types.Interface
 }
 
 // Load type-checks ./pkg/... ./plugin/... ./cmd/... of the repository at dir (with all
@@ -92,6 +94,7 @@ func Load(dir string, patterns ...string) (*World, error) {
 	prog.Build()
 	w.Prog = prog
 	w.SSATime = time.Since(t1)
+	Current = w
 	return w, nil
 }
 
